@@ -56,12 +56,20 @@ def ref_name(n):
     return None
 
 
-def is_null(n):
+_FACTS = [None]
+
+
+def is_null(n, depth=0):
     n = strip(n)
     if n is None:
         return False
     if n["k"] in ("CXXNullPtrLiteralExpr", "GNUNullExpr"):
         return True
+    if n["k"] == "DeclRefExpr" and cv(n) is None and depth < 3 and _FACTS[0] is not None and "const" in (n.get("ct") or n.get("t") or ""):
+        # a named constant: `const InterruptHandler NO_HANDLER = 0;`
+        v = _FACTS[0].vars.get(n.get("qn"))
+        if v and v.get("init") and "const" in (v.get("t") or v.get("ct") or "const"):
+            return is_null(v["init"][0], depth + 1)
     return cv(n) == 0
 
 
@@ -112,7 +120,7 @@ def accesses(f):
 def run(rep, ctx):
     repo = ctx["repo"]
     jobs = [dict(unit="src/solver.cc", fn=[SH + "::.*"], repo=repo, closure=2,
-                 var=[SH + "::.*"], rec=[SH]),
+                 var=[SH + "::.*", r"mp::(internal::)?(\(anon\)::)?[A-Za-z_0-9]+"], rec=[SH]),
             dict(unit="solvers/visitor/main.cc", fn=[r"mp::BackendApp::.*", SH + "::.*"],
                  rec=[r"mp::BackendApp", SH], repo=repo),
             dict(unit="solvers/visitor/visitorbackend.cc",
@@ -124,6 +132,7 @@ def run(rep, ctx):
                 jobs.append(dict(unit=u, fn=[SH + "::.*"], repo=repo))
     res = export_many(jobs)
     F = Facts(res)
+    _FACTS[0] = F
     rep.note_units([j["unit"] for j in jobs])
     fs = {f.name: f for f in F.funcs if f.qn.startswith(SH + "::") and f.cfg}
     rep.note_funcs(F.funcs)
